@@ -33,19 +33,19 @@ type memConn struct {
 	rdl      time.Time
 
 	// controller-owned
-	sess        *zkSession
-	shaken      bool
-	dead        atomic.Bool // owner process died / link cut for good: nothing flows any more
+	sess         *zkSession
+	shaken       bool
+	dead         atomic.Bool // owner process died / link cut for good: nothing flows any more
 	cliCloseSeen bool
-	lastUp      time.Duration
-	lastDown    time.Duration
-	heldUp      [][]byte
-	heldDown    [][]byte
-	heldDownCb  []func() // delivery callbacks of heldDown (same index; nil = none)
-	upCount     int
-	curReq      []byte // request being handled (latency key of its reply)
-	pend        [][]byte
-	downCount   int
+	lastUp       time.Duration
+	lastDown     time.Duration
+	heldUp       [][]byte
+	heldDown     [][]byte
+	heldDownCb   []func() // delivery callbacks of heldDown (same index; nil = none)
+	upCount      int
+	curReq       []byte // request being handled (latency key of its reply)
+	pend         [][]byte
+	downCount    int
 }
 
 func (c *memConn) Read(p []byte) (int, error) {
@@ -134,11 +134,16 @@ func (c *memConn) serverClose() {
 	c.signal()
 }
 
-func (c *memConn) LocalAddr() net.Addr               { return &net.TCPAddr{} }
-func (c *memConn) RemoteAddr() net.Addr              { return &net.TCPAddr{} }
-func (c *memConn) SetDeadline(t time.Time) error     { return c.SetReadDeadline(t) }
-func (c *memConn) SetReadDeadline(t time.Time) error { c.mu.Lock(); c.rdl = t; c.mu.Unlock(); return nil }
-func (c *memConn) SetWriteDeadline(time.Time) error  { return nil }
+func (c *memConn) LocalAddr() net.Addr           { return &net.TCPAddr{} }
+func (c *memConn) RemoteAddr() net.Addr          { return &net.TCPAddr{} }
+func (c *memConn) SetDeadline(t time.Time) error { return c.SetReadDeadline(t) }
+func (c *memConn) SetReadDeadline(t time.Time) error {
+	c.mu.Lock()
+	c.rdl = t
+	c.mu.Unlock()
+	return nil
+}
+func (c *memConn) SetWriteDeadline(time.Time) error { return nil }
 
 // ---------------------------------------------------------------- Net: reachability + zk transport
 
@@ -651,14 +656,14 @@ func zframe(b []byte) []byte {
 }
 
 const (
-	zkErrNoNode       = -101
-	zkErrNodeExists   = -110
-	zkErrBadVersion   = -103
-	zkErrNotEmpty     = -111
-	zkErrNoChildEph   = -108
-	zkErrSessExpired  = -112
+	zkErrNoNode        = -101
+	zkErrNodeExists    = -110
+	zkErrBadVersion    = -103
+	zkErrNotEmpty      = -111
+	zkErrNoChildEph    = -108
+	zkErrSessExpired   = -112
 	zkErrUnimplemented = -6
-	zkErrBadArguments = -8
+	zkErrBadArguments  = -8
 )
 
 func (z *ZKServer) handle(c *memConn, req []byte) {
